@@ -115,7 +115,16 @@ func VerifC20_PollProgress() {
 	held := sym.Choice("held", 2)
 	npeers := 1 + sym.Choice("peers-minus-1", 2)
 	v := verifSubscriber(held, npeers, time.Second, 10*time.Second, 100*time.Second)
-	next := uint64(held)
+	// the local GPBFT instance may finish between the loop's catch-up and the poll
+	local := sym.Choice("local-certificate-before-poll", 2)
+	if local == 1 {
+		if err := v.cs.Put(ctx, v.all[held]); err != nil {
+			panic(err)
+		}
+		sym.Cover("local-advance")
+	}
+	next := uint64(held + local)
+	fromNetwork := 0
 	// one scripted response per peer, in polling order
 	for i := 0; i < npeers; i++ {
 		k := sym.Choice("serves", 4) // 0..2 genuine certificates, or 3 = the peer fails
@@ -133,6 +142,7 @@ func VerifC20_PollProgress() {
 		}
 		v.h.Responses = append(v.h.Responses, certexchange.VerifResponse(pending, nil, 0, v.all[next:next+uint64(k)]...))
 		next += uint64(k)
+		fromNetwork += k
 	}
 	before := v.s.poller.NextInstance
 	progress, newCert, err := v.s.poll(ctx)
@@ -153,7 +163,8 @@ func VerifC20_PollProgress() {
 	}
 	sym.Assert(after == latest && after >= before, "poller-follows-the-store")
 	sym.Assert(progress == after-before, "progress-is-the-number-of-instances-advanced")
-	sym.Assert(newCert == (latest > uint64(held)), "new-flag-iff-a-certificate-was-stored")
+	sym.Assert(latest == uint64(held+local+fromNetwork), "store-advanced-by-local-and-network-certificates")
+	sym.Assert(newCert == (fromNetwork > 0), "new-flag-iff-a-certificate-from-a-peer-was-stored")
 }
 
 // VerifC20_RunLoopTimer: one iteration of the real Subscriber.run loop (real
